@@ -160,3 +160,14 @@ Definition run19 (net : list rxn) (iso : list str) (rc : rcert) (ccs : list rcer
         tbool (check_deficiency_one s ld);
         tbool (deficiency_one_hypotheses s ld reg) ]
   end.
+
+(** A call history on ONE DeficiencyAnalyzer object whose network is edited between the calls.  The object stores
+    _summary, _complexes, _idx_map, _complex_graph, _linkage_deficiencies and _structural_one_result; each analysis
+    (compute_crn_deficiency, or compute_summary + compute_linkage_deficiencies + run_deficiency_one_algorithm) OVERWRITES
+    every one of them from the current network and reads none of the old values.  State machine: the state is the stored
+    answer; a step ignores the old state. *)
+Definition hist_step := (list rxn * list str * rcert * list rcert)%type.
+Definition step19 (st : tok) (x : hist_step) : tok :=
+  run19 (fst (fst (fst x))) (snd (fst (fst x))) (snd (fst x)) (snd x).
+Definition run19_hist (steps : list hist_step) : tok :=
+  L (snd (fold_left (fun acc x => let st' := step19 (fst acc) x in (st', snd acc ++ [st'])) steps (L [], []))).
